@@ -3960,3 +3960,58 @@ ARGS_REQUIRED = dict(
            ("inspect.Parameter.empty", "AEmpty", "ann")],
     raises=[("The given object is not a class", 29)])
 ALL += [ARGS_GET_CLASS, ARGS_CREATE_INSTANCE, ARGS_REQUIRED]
+# ---- the small functions (wave 6): ExperimentSpace.__init__ and its query methods (data.py; vocabulary: last part of
+# Model/Persist.v; generated file Generated/SrcSpaceMethods.v; proofs Proofs/C01Source_Space*.v).  An ExperimentSpace object is
+# `pyspace` = its three instance attributes as stored (two tuples of arrays, a string): typed fields.  A dose is its order key
+# (the literal 0.0 is key 0).  Trusted per entry, ONE numpy call / tuple projection each:
+#   m[0], m[1], m[2]            the components of a mapping tuple
+#   np.array([x])               the array of that list (the same values)
+#   a == v                      elementwise on a str / int array
+#   a[mask]                     boolean-mask selection (IndexError, tag 35, on another length)
+#   a.item()                    the only element of an array of size 1, else ValueError (tag 36)
+#   np.unique(a)                the sorted distinct values;  np.sort(a);  a.size
+#   np.setdiff1d(a, b)          the sorted distinct values of a not in b
+_LS_SPACE_FIELDS = {
+    "treatment_mapping": ("pyspace", _TMAP_T, "pysp_tmap {obj}", "set_pysp_tmap {obj} {val}"),
+    "sample_mapping": ("pyspace", _SMAP_T, "pysp_smap {obj}", "set_pysp_smap {obj} {val}"),
+    "control_treatment_name": ("pyspace", "name", "pysp_ctrl {obj}", "set_pysp_ctrl {obj} {val}")}
+_LS_SPACE = dict(file="src/batchie/data.py", cls="ExperimentSpace", out="SrcSpaceMethods.v",
+                 imports="Generated.Consts Model.Encode Model.Screen Model.Persist", overload=True, fields=_LS_SPACE_FIELDS,
+                 float_consts={"0.0": ("0", "Z")})
+_LS_SPACE_NUMPY = _TUPLE_ITEMS + [
+    ("np.array(__a)", "{a}", "list name", {"a": "list name"}), ("np.array(__a)", "{a}", "list Z", {"a": "list Z"}),
+    ("__a == __v", "arr_eq_name {a} {v}", "list bool", {"a": "list name", "v": "name"}),
+    ("__a == __v", "arr_eq_id {a} {v}", "list bool", {"a": "list Z", "v": "Z"}),
+    ("__a[__m]", "!arr_mask {a} {m}", "list name", {"a": "list name", "m": "list bool"}),
+    ("__a[__m]", "!arr_mask {a} {m}", "list Z", {"a": "list Z", "m": "list bool"}),
+    ("__a.item()", "!arr_item {a}", "name", {"a": "list name"}), ("__a.item()", "!arr_item {a}", "Z", {"a": "list Z"}),
+    ("np.unique(__a)", "sort_uniq name_cmp {a}", "list name", {"a": "list name"}),
+    ("np.unique(__a)", "sort_uniq Z.compare {a}", "list Z", {"a": "list Z"}),
+    ("np.sort(__a)", "np_sort_Z {a}", "list Z", {"a": "list Z"}),
+    ("np.setdiff1d(__a, __b)", "setdiff1d_names {a} {b}", "list name", {"a": "list name", "b": "list name"}),
+    ("np.setdiff1d(__a, __b)", "np_setdiff1d {a} {b}", "list Z", {"a": "list Z", "b": "list Z"}),
+    ("__a.size", "Z.of_nat (length {a})", "Z", {"a": "list name"}), ("__a.size", "Z.of_nat (length {a})", "Z", {"a": "list Z"}),
+]
+LS_SPACE_INIT = dict(
+    _LS_SPACE, func="__init__", name="src_space_init",
+    pyparams=["self", "treatment_mapping", "sample_mapping", "control_treatment_name"], pydefaults=["''"],
+    params=[("self", "pyspace"), ("treatment_mapping", _TMAP_T), ("sample_mapping", _SMAP_T), ("control_treatment_name", "name")],
+    returns="pyspace", vars={}, implicit_return="{self}")
+
+
+def _ls_space_method(func, name, ret, extra_params=(), local_vars=None):
+    return dict(_LS_SPACE, func=func, name=name, pyparams=["self"] + [p for p, _ in extra_params],
+                params=[("self", "pyspace")] + list(extra_params), returns=ret, vars=dict(local_vars or {}), prims=_LS_SPACE_NUMPY)
+
+
+_SEL = {"selection": "list bool"}
+LS_SPACE_N_TYPES = _ls_space_method("n_unique_treatment_types", "src_space_n_unique_treatment_types", "Z")
+LS_SPACE_N_DOSES = _ls_space_method("n_unique_doses", "src_space_n_unique_doses", "Z")
+LS_SPACE_DOSES_FOR = _ls_space_method("doses_for_treatment", "src_space_doses_for_treatment", "list Z", [("treatment_name", "name")], _SEL)
+LS_SPACE_IDS_FROM_NAME = _ls_space_method("treatment_ids_from_treatment_name", "src_space_treatment_ids_from_treatment_name", "list Z",
+                                          [("treatment_name", "name")], _SEL)
+LS_SPACE_SAMPLE_ID = _ls_space_method("sample_id_from_sample_name", "src_space_sample_id_from_sample_name", "Z", [("sample_name", "name")], _SEL)
+LS_SPACE_SAMPLE_NAME = _ls_space_method("sample_name_from_sample_id", "src_space_sample_name_from_sample_id", "name", [("sample_id", "Z")], _SEL)
+LS_SPACE_ALL = [LS_SPACE_INIT, LS_SPACE_N_TYPES, LS_SPACE_N_DOSES, LS_SPACE_DOSES_FOR, LS_SPACE_IDS_FROM_NAME, LS_SPACE_SAMPLE_ID,
+                LS_SPACE_SAMPLE_NAME]
+ALL += LS_SPACE_ALL
